@@ -368,6 +368,12 @@ def insertGroup (s : State) (b : Nat) (upd : Nat) (gid parent : Nat) : Option St
 def maxGroupId (s : State) (b : Nat) : Nat :=
   (s.groups.filter (·.batch = b)).foldl (fun m g => max m g.id) 0
 
+/-- one spec of `_create_job_groups` applied to the transaction state so far (`none` = an error was raised) -/
+def groupSpecStep (b upd : Nat) (u : Update) (acc : Option State) (sp : GroupSpec) : Option State :=
+  acc.bind fun st =>
+    insertGroup st b upd (u.startGroup + sp.relId - 1)
+      (match sp.absParent with | some p => p | none => u.startGroup + sp.relParent - 1)
+
 /-- `_create_job_groups`: one transaction; any failure rolls everything back -/
 def insertGroups (s : State) (b upd user : Nat) (specs : List GroupSpec) : State × Out :=
   match specs with
@@ -379,10 +385,7 @@ def insertGroups (s : State) (b upd user : Nat) (specs : List GroupSpec) : State
       else if u.committed then (s, .err "committed")
       else if u.startGroup + first.relId - 1 ≠ maxGroupId s b + 1 then (s, .err "out-of-order")
       else
-        let r := specs.foldl (fun acc sp => acc.bind fun st =>
-          let gid := u.startGroup + sp.relId - 1
-          let parent := match sp.absParent with | some p => p | none => u.startGroup + sp.relParent - 1
-          insertGroup st b upd gid parent) (some s)
+        let r := specs.foldl (groupSpecStep b upd u) (some s)
         match r with
         | some s' => (s', .ok 0)
         | none => (s, .err "bad-request")
@@ -398,33 +401,44 @@ def mkJob (u : Update) (b : Nat) (sp : JobSpec) : Job :=
 def jobParents (u : Update) (sp : JobSpec) : List Nat :=
   sp.absParents ++ sp.relParents.map (fun p => u.startJob + p - 1)
 
-/-- `_create_jobs` (DB part): staging and cancellable rows are written for every ancestor of the job's group -/
+/-- the checks of `_create_jobs`: `some out` = the transaction answers `out` and changes nothing -/
+def insertJobsReject (s : State) (b user : Nat) (u : Update) (bt : Batch) (first : JobSpec) (specs : List JobSpec) :
+    Option Out :=
+  let js := specs.map (mkJob u b)
+  if bt.user ≠ user ∨ bt.deleted then some (.err "not-found")
+  else if u.committed then some (.err "committed")
+  -- ER_DUP_ENTRY on the first job id: the bunch was already inserted -> no-op, success
+  else if (findJob s b (mkJob u b first).id).isSome then some (.ok 0)
+  else if js.any (fun j => groupCancelled s b j.group) then some (.err "cancelled")   -- jobs_before_insert SIGNAL
+  else if js.any (fun j => (findGroup s b j.group).isNone) then some (.err "fk")      -- foreign key on job_groups
+  else if js.any (fun j => (findJob s b j.id).isSome) ∨ ¬ (js.map (·.id)).Nodup then some (.err "dup")
+  else if specs.any (fun sp => ¬ (jobParents u sp).Nodup) then some (.err "dup-parents")
+  else none
+
+/-- rows written by an accepted bunch: jobs, job_parents, staging and cancellable rows for every ancestor of the
+job's group -/
+def insertJobsApply (s : State) (b upd : Nat) (u : Update) (specs : List JobSpec) : State :=
+  let js := specs.map (mkJob u b)
+  let pars := specs.flatMap fun sp => (jobParents u sp).map fun p => (b, sp.relId + u.startJob - 1, p)
+  let deltas := js.flatMap fun j =>
+    let ready := j.state = .Ready
+    (ancestorsOf s b j.group).flatMap fun a =>
+      [(CKey.sJobs b upd a j.ic, 1), (CKey.sReady b upd a j.ic, b2i ready),
+       (CKey.sReadyCores b upd a j.ic, b2i ready * j.cores),
+       (CKey.cReady b upd a j.ic, b2i (ready && !j.alwaysRun)),
+       (CKey.cReadyCores b upd a j.ic, b2i (ready && !j.alwaysRun) * j.cores)]
+  { s with jobs := s.jobs ++ js, parents := s.parents ++ pars, ctr := addMany deltas s.ctr }
+
+/-- `_create_jobs` (DB part) -/
 def insertJobs (s : State) (b upd user : Nat) (specs : List JobSpec) : State × Out :=
   match specs with
   | [] => (s, .err "assert")
   | first :: _ =>
     match findUpdate s b upd, findBatch s b with
     | some u, some bt =>
-      if bt.user ≠ user ∨ bt.deleted then (s, .err "not-found")
-      else if u.committed then (s, .err "committed")
-      else
-        let js := specs.map (mkJob u b)
-        -- ER_DUP_ENTRY on the first job id: the bunch was already inserted -> no-op, success
-        if (findJob s b (mkJob u b first).id).isSome then (s, .ok 0)
-        else if js.any (fun j => groupCancelled s b j.group) then (s, .err "cancelled")   -- jobs_before_insert SIGNAL
-        else if js.any (fun j => (findGroup s b j.group).isNone) then (s, .err "fk")      -- foreign key on job_groups
-        else if js.any (fun j => (findJob s b j.id).isSome) ∨ ¬ (js.map (·.id)).Nodup then (s, .err "dup")
-        else if specs.any (fun sp => ¬ (jobParents u sp).Nodup) then (s, .err "dup-parents")
-        else
-          let pars := specs.flatMap fun sp => (jobParents u sp).map fun p => (b, sp.relId + u.startJob - 1, p)
-          let deltas := js.flatMap fun j =>
-            let ready := j.state = .Ready
-            (ancestorsOf s b j.group).flatMap fun a =>
-              [(CKey.sJobs b upd a j.ic, 1), (CKey.sReady b upd a j.ic, b2i ready),
-               (CKey.sReadyCores b upd a j.ic, b2i ready * j.cores),
-               (CKey.cReady b upd a j.ic, b2i (ready && !j.alwaysRun)),
-               (CKey.cReadyCores b upd a j.ic, b2i (ready && !j.alwaysRun) * j.cores)]
-          ({ s with jobs := s.jobs ++ js, parents := s.parents ++ pars, ctr := addMany deltas s.ctr }, .ok 0)
+      match insertJobsReject s b user u bt first specs with
+      | some o => (s, o)
+      | none => (insertJobsApply s b upd u specs, .ok 0)
     | _, _ => (s, .err "not-found")
 
 def isRunnable (st : JState) : Bool := st = .Pending ∨ st = .Ready ∨ st = .Creating ∨ st = .Running
@@ -475,44 +489,59 @@ def commitUpdate (s : State) (b upd : Nat) : State × Out :=
         cancelled := if nSucceeded = nParents - nPending then j.cancelled else true }
     (updateJobs s4 inRange recompute, .ok 0)
 
-/-- `cancel_job_group_in_db` + procedure `cancel_job_group` -/
-def cancelGroup (s : State) (b g : Nat) : State × Out :=
+/-- the existence check of `cancel_job_group_in_db`: the batch is not deleted and the group is the root or belongs
+to a committed update -/
+def cancelVisible (s : State) (b g : Nat) : Bool :=
   match findGroup s b g, findBatch s b with
   | some grp, some bt =>
-    let visible := !bt.deleted && (g = 0 || (match grp.update with | some u => updCommitted s b u | none => false))
-    if !visible then (s, .err "not-found") else
-    if groupCancelled s b g then (s, .ok 0) else
-    let user := bt.user
-    -- all (update, inst_coll) pairs that have cancellable rows for this group
-    let rows := (s.ctr.filterMap fun e => match e.1 with
-      | .cReady b' u g' ic | .cReadyCores b' u g' ic | .cCreating b' u g' ic | .cRunning b' u g' ic
-      | .cRunningCores b' u g' ic => if b' = b ∧ g' = g then some (u, ic) else none
-      | _ => none).eraseDups
-    let userDeltas := (rows.filter fun r => updCommitted s b r.1).flatMap fun (u, ic) =>
-      let nr := get s.ctr (.cReady b u g ic);      let rc := get s.ctr (.cReadyCores b u g ic)
-      let nrun := get s.ctr (.cRunning b u g ic);  let runc := get s.ctr (.cRunningCores b u g ic)
-      let ncr := get s.ctr (.cCreating b u g ic)
-      [(CKey.uReady user ic, -nr), (CKey.uReadyCores user ic, -rc), (CKey.uRunning user ic, -nrun),
-       (CKey.uRunningCores user ic, -runc), (CKey.uCreating user ic, -ncr),
-       (CKey.uCancReady user ic, nr), (CKey.uCancRunning user ic, nrun), (CKey.uCancCreating user ic, ncr)]
-    -- subtract this group's cancellable rows from itself and from every ancestor
-    let groupDeltas := grp.ancestors.flatMap fun a => rows.flatMap fun (u, ic) =>
-      [(CKey.cReady b u a ic, - get s.ctr (.cReady b u g ic)),
-       (CKey.cReadyCores b u a ic, - get s.ctr (.cReadyCores b u g ic)),
-       (CKey.cCreating b u a ic, - get s.ctr (.cCreating b u g ic)),
-       (CKey.cRunning b u a ic, - get s.ctr (.cRunning b u g ic)),
-       (CKey.cRunningCores b u a ic, - get s.ctr (.cRunningCores b u g ic))]
-    ({ s with ctr := addMany (userDeltas ++ groupDeltas) s.ctr, cancelled := s.cancelled ++ [(b, g)] }, .ok 0)
-  | _, _ => (s, .err "not-found")
+    !bt.deleted && (g = 0 || (match grp.update with | some u => updCommitted s b u | none => false))
+  | _, _ => false
 
-/-- `_delete_batch` -/
+/-- all (update, inst_coll) pairs that have cancellable rows for group `g` -/
+def cancellableRows (s : State) (b g : Nat) : List (Nat × Nat) :=
+  (s.ctr.filterMap fun e => match e.1 with
+    | .cReady b' u g' ic | .cReadyCores b' u g' ic | .cCreating b' u g' ic | .cRunning b' u g' ic
+    | .cRunningCores b' u g' ic => if b' = b ∧ g' = g then some (u, ic) else none
+    | _ => none).eraseDups
+
+/-- the two `INSERT … ON DUPLICATE KEY UPDATE` statements of procedure `cancel_job_group` -/
+def cancelDeltas (s : State) (b g : Nat) : List (CKey × Int) :=
+  let user := userOf s b
+  let rows := cancellableRows s b g
+  -- user counters: cancellable rows of committed updates move from ready/running/creating to cancelled_*
+  let userDeltas := (rows.filter fun r => updCommitted s b r.1).flatMap fun (u, ic) =>
+    let nr := get s.ctr (.cReady b u g ic);      let rc := get s.ctr (.cReadyCores b u g ic)
+    let nrun := get s.ctr (.cRunning b u g ic);  let runc := get s.ctr (.cRunningCores b u g ic)
+    let ncr := get s.ctr (.cCreating b u g ic)
+    [(CKey.uReady user ic, -nr), (CKey.uReadyCores user ic, -rc), (CKey.uRunning user ic, -nrun),
+     (CKey.uRunningCores user ic, -runc), (CKey.uCreating user ic, -ncr),
+     (CKey.uCancReady user ic, nr), (CKey.uCancRunning user ic, nrun), (CKey.uCancCreating user ic, ncr)]
+  -- subtract this group's cancellable rows (all updates) from itself and from every ancestor
+  let groupDeltas := (ancestorsOf s b g).flatMap fun a => rows.flatMap fun (u, ic) =>
+    [(CKey.cReady b u a ic, - get s.ctr (.cReady b u g ic)),
+     (CKey.cReadyCores b u a ic, - get s.ctr (.cReadyCores b u g ic)),
+     (CKey.cCreating b u a ic, - get s.ctr (.cCreating b u g ic)),
+     (CKey.cRunning b u a ic, - get s.ctr (.cRunning b u g ic)),
+     (CKey.cRunningCores b u a ic, - get s.ctr (.cRunningCores b u g ic))]
+  userDeltas ++ groupDeltas
+
+/-- procedure `cancel_job_group` once the group is known not to be cancelled yet -/
+def cancelApply (s : State) (b g : Nat) : State :=
+  { s with ctr := addMany (cancelDeltas s b g) s.ctr, cancelled := s.cancelled ++ [(b, g)] }
+
+/-- `cancel_job_group_in_db` + procedure `cancel_job_group` -/
+def cancelGroup (s : State) (b g : Nat) : State × Out :=
+  if cancelVisible s b g = false then (s, .err "not-found")
+  else if groupCancelled s b g then (s, .ok 0)
+  else (cancelApply s b g, .ok 0)
+
+/-- `_delete_batch`: `CALL cancel_job_group(b, 0)` directly (no visibility check), then `deleted = 1` -/
 def deleteBatch (s : State) (b : Nat) : State × Out :=
   match findBatch s b with
   | none => (s, .err "not-found")
   | some bt =>
     if bt.deleted then (s, .err "not-found") else
-    -- CALL cancel_job_group(b, 0) directly (no visibility check), then deleted = 1
-    let s1 := (cancelGroup { s with batches := s.batches.map fun (x : Batch) => if x.id = b then { x with deleted := false } else x } b 0).1
+    let s1 := if groupCancelled s b 0 then s else cancelApply s b 0
     ({ s1 with batches := s1.batches.map fun (x : Batch) => if x.id = b then { x with deleted := true } else x }, .ok 0)
 
 def newInstance (s : State) (name : Nat) (cores : Int) (isPool : Bool) : State × Out :=
